@@ -316,11 +316,47 @@ def f2_concatenations(ctx: Ctx) -> None:
                 (ctx.ok if split and only_cb else ctx.bad)(R, f, c, 'called only by consolidate_blocks, which starts a new group whenever block.dtype != group_dtype' if split and only_cb else
                                                            f'_concatenate_blocks is reachable with mixed dtypes (callers {callers}, group split present: {split})', key=key)
                 continue
+            # operands produced, one per input, by a helper that casts to the dtype it is given: [self._h(b, self._row_dtype) for b in ...]
+            if isinstance(arg, (ast.ListComp, ast.GeneratorExp)) and isinstance(arg.elt, ast.Call) and top.cls is not None:
+                hn = arg.elt.func.attr if isinstance(arg.elt.func, ast.Attribute) else (arg.elt.func.id if isinstance(arg.elt.func, ast.Name) else None)
+                h = top.cls.methods.get(hn) if hn else None
+                if h is not None:
+                    prm = _casts_to_param(h)
+                    if prm is not None:
+                        ps = [p_ for p_ in h.params if p_ not in ('self', 'cls')]
+                        given = kwarg(arg.elt, prm) or (arg.elt.args[ps.index(prm)] if prm in ps and ps.index(prm) < len(arg.elt.args) else None)
+                        rok, rwhy = _resolver_derived(top, given) if given is not None else (False, '')
+                        if given is not None and (norm(given).endswith('._row_dtype') or rok):
+                            ctx.ok(R, f, c, f'every operand is {hn}(..., {norm(given)}), which returns its input cast to that dtype', key=key)
+                            continue
             ctx.bad(R, f, c, 'bare np.concatenate over arrays of possibly different dtypes (NumPy promotes str/number, int/float silently)', key=key)
     fixture = ast.parse('x = np.hstack((a, b))').body[0].value
     if attr_chain(fixture.func)[-1] != 'hstack':
         raise AnalysisError('positive fixture of F2 no longer matches')
     ctx.ok(R, 'core.<all calls>', None, f'{n_bad_prims} uses of np.hstack/vstack/append/insert/stack on data (fixture matched)', key='no-raw-stack', file='static_frame/core')
+
+
+def _casts_to_param(h: FuncInfo) -> tp.Optional[str]:
+    '''The dtype parameter P of a helper every return of which hands back an array of dtype P: `X.astype(P)`, or X itself where `X.dtype != P` was tested false
+    (or `X.dtype == P` true) on the way.'''
+    rets = [r for r in walk_local(h.node) if isinstance(r, ast.Return) and r.value is not None]
+    if not rets:
+        return None
+    cands = {norm(r.value.args[0]) for r in rets if isinstance(r.value, ast.Call) and isinstance(r.value.func, ast.Attribute) and r.value.func.attr == 'astype' and r.value.args
+             and isinstance(r.value.args[0], ast.Name) and r.value.args[0].id in h.params}
+    if len(cands) != 1:
+        return None
+    prm = next(iter(cands))
+    for r in rets:
+        v = r.value
+        if isinstance(v, ast.Call) and isinstance(v.func, ast.Attribute) and v.func.attr == 'astype' and v.args and norm(v.args[0]) == prm:
+            continue
+        # returned as it is: the function tests `<v>.dtype != prm` (or ==) somewhere
+        tested = any(isinstance(c, ast.Compare) and len(c.ops) == 1 and isinstance(c.ops[0], (ast.Eq, ast.NotEq)) and
+                     {norm(c.left), norm(c.comparators[0])} == {f'{norm(v)}.dtype', prm} for c in walk_local(h.node))
+        if not tested:
+            return None
+    return prm
 
 
 def _under_dtype_equal_guard(f: FuncInfo, node: ast.AST) -> bool:
